@@ -108,6 +108,11 @@ def cases(shard, nshards, seed, tier):
     for fn in _corpus():
         if mine():
             yield {"family": "corpus", "file": fn}
+    # exactly planar quadruples (cis and trans) in axis-aligned planes with exact zeros
+    for perm in range(24):
+        for phi_name in ("cis", "trans"):
+            if mine():
+                yield {"family": "exact-planar", "k": perm, "conformation": phi_name}
 
 
 def _one(rec, phi, rng, idx):
@@ -153,6 +158,24 @@ def run_case(case, rec):
         rec.mark_nontrivial(abs(math.sin(phi)) > 1e-3)
         _one(rec, phi, random.Random(f"C18:grid:{case['i']}"), case["i"])
         return
+    if fam == "exact-planar":
+        from rnapolis import tertiary, tertiary_v2
+
+        rec.mark_nontrivial(True)
+        R = geom.axis_permutations()[case["k"]]
+        t = np.array([float((case["k"] * 7) % 5 - 2), float(case["k"] % 3), 0.0])
+        p1, p2, p3 = np.array([-0.5, 1.0, 0.0]), np.array([0.0, 0.0, 0.0]), np.array([1.5, 0.0, 0.0])
+        p4 = np.array([2.0, 1.0, 0.0]) if case["conformation"] == "cis" else np.array([2.0, -1.0, 0.0])
+        pts = [R @ p + t for p in (p1, p2, p3, p4)]
+        want = 0.0 if case["conformation"] == "cis" else math.pi
+        _cur["ctx"] = "exact-planar"
+        for which, f in (("v1", tertiary.calculate_torsion_angle_coords), ("v2", tertiary_v2.calculate_torsion_angle)):
+            try:
+                val = float(f(*pts))
+            except Exception:
+                continue
+            rec.check(f"{which}.exact-planar", geom.wrapdiff(val, want) <= TOL, lambda: {"impl": which, "conformation": case["conformation"], "got": val, "want": want, "points": [list(map(float, p)) for p in pts]})
+        return
     if fam == "random-batch":
         rec.mark_nontrivial(True)
         rng = random.Random(f"{os.environ.get('VERIF_SEED', '0')}:C18:b:{case['batch']}")
@@ -193,6 +216,18 @@ def run_case(case, rec):
             rec.check("chi.anti-for-A-form", cls == GlycosidicBond.anti and geom.wrapdiff(chi, ref) <= TOL,
                       lambda: {"residue": r.full_name, "chi": chi, "reference": ref, "class": str(cls)})
     rec.mark_nontrivial(nchi > 0)
+    # the same identifiers with other coordinates in the same process (second conformer of
+    # the same molecule): every torsion call is judged against the atoms' own x/y/z
+    from vmon import gen3d as _g3
+
+    s3b = _g3.rebuild(s3, coord_fn=lambda ri, p: p + np.array([0.31 * ((ri * 7) % 3 - 1), 0.23 * ((ri * 5) % 3 - 1), 0.17 * ((ri * 3) % 3 - 1)]) * (1.0 if len(p) else 1.0) + 0.2 * np.sin(p))
+    _cur["ctx"] = "second conformer, same identifiers"
+    for r in s3b.residues:
+        if r.is_nucleotide:
+            try:
+                r.chi
+            except Exception:
+                pass
     # annotator path (cis/trans and BPh use torsion_angle through its own alias)
     _cur["ctx"] = "annotator"
     try:
